@@ -521,6 +521,15 @@ theorem pyIn_of_findSingle (rid : J) (hh : rid.hashable = true) :
       have := ih hk
       simpa [singleKeys, hka] using this
 
+/-- whatever the guards: a response whose (hashable, non-bool) id names a listed entry pops
+that entry and goes on to resolve its future -/
+theorem receiveResponse_known (g : Guards) (c : Conn) (v : RespVal) (rid : J) (en : Entry)
+    (hk : findSingle rid c.out = some en) (hh : rid.hashable = true) (hb : rid.isBool = false) :
+    receiveResponse g c v rid =
+      resolve g.doneSingle { c with out := popSingle rid c.out } en (.single v) := by
+  unfold receiveResponse
+  simp only [hb, Bool.false_eq_true, if_false, pyIn_of_findSingle rid hh c.out en hk, hk]
+
 /-- a response (well-formed or malformed with a recoverable id) that names an outstanding
 single request: the entry is removed; its future is resolved with the response exactly when it
 was still pending, and left alone when the waiter had given up or somebody else resolved it —
